@@ -1,4 +1,4 @@
 SPECIFICATION TraceSpec
-INVARIANT I13
+INVARIANT J13
 POSTCONDITION TraceAccepted
 CHECK_DEADLOCK FALSE
